@@ -22,7 +22,7 @@ META = dict(
     encoded=["SpecDataset.__init__/_wrapper/__getattr__", "SpecArray.dd/df and every observed statistic", "attributes.AttrDict / set_spec_attributes", "xarray accessor caching (one accessor instance per object)"],
     encoded_files=["wavespectra/specdataset.py", "wavespectra/specarray.py", "wavespectra/core/attributes.py"],
     bounds="all histories of length <= 2 (quick) / <= 3 (thorough) over the alphabet {accessor calls, replace efth by independent symbolic data, relabel dir with the same spacing, relabel dir with another spacing, unknown-statistic call, reader helper on another dataset, transform call}, on a DataArray and on a Dataset (grid 3x4 directions); after each history every observed operation must equal the same operation on a freshly built object with the same final contents; AttrDict by CrossHair on short string keys; the watershed's static buffers are covered by C04/C20 (engine L, consecutive calls with different shapes)",
-    outside="histories longer than the bound; IEEE rounding; other processes",
+    outside="histories longer than the bound; peak statistics and site selection only after the short histories of `peak_history` / `sel_history` (call, edit, call); IEEE rounding; other processes",
     assumptions=["spectrum bins are finite reals >= 0"],
 )
 
@@ -152,6 +152,110 @@ def history(env, kind, hist):
                 b, _ = _observe(env, obj.efth, what)
             for x, y in zip(a, b):
                 env.close(_res(env, x), _res(env, y), "Dataset accessor agrees with the accessor of its efth variable after %s (%s)" % (hist, what), rel=1e-12, abs_=0.0, ctol=1e-9, catol=1e-12)
+
+
+PEAK_OBS = ["tp", "tp_raw", "dp", "dpm"]
+
+
+@harness(P, quick=[dict(kind=k, hist=h) for k in ("da", "ds") for h in ("PE", "PD", "PEP")], thorough=[dict(kind=k, hist=h) for k in ("da", "ds") for h in ("PE", "PD", "PH", "PEP", "PEE", "PDE", "APE")],
+         max_paths=400, obl_timeout=8000, witnesses=2, time_budget=240, hard_timeout=600)
+def peak_history(env, kind, hist):
+    """the peak statistics (tp, smoothed and raw, dp, dpm) after a history that called them before the contents or
+    the direction labels were replaced equal the ones of a fresh object with the final contents. Step P = call the
+    peak statistics (so that anything memoised on the accessor is filled), the other steps as in `history`."""
+    from vt.props import ops
+    _reset_table()
+    # the contents before the history are fixed numbers (what is memoised from them does not matter, only that it is):
+    # the paths then fork on the peaks of the FINAL contents only
+    e0 = np.array([[0.1, 0.4, 0.2, 0.1], [0.3, 2.0, 0.7, 0.2], [0.2, 0.6, 0.3, 0.1]])
+    vals = np.array(e0, dtype=object if env.sym else float)
+    if env.sym:
+        for i_, v_ in np.ndenumerate(e0):
+            vals[i_] = S.CF(v_)
+    da = xr.DataArray(vals, dims=("freq", "dir"), coords={"freq": F, "dir": D}, name="efth")
+    obj = da.to_dataset() if kind == "ds" else da
+    obj.spec
+    for n, st in enumerate(hist):
+        if st == "P":
+            for what in PEAK_OBS:
+                ops.run(env, what, obj)
+        else:
+            obj = _step(env, obj, st, n + 1, kind)
+        cur = obj.efth if kind == "ds" else obj
+        env.assume(total(np.asarray(cur.values)) > 0)
+    fresh = _fresh(obj)
+    for what in PEAK_OBS:
+        with env.lazy_sqrt():
+            got = ops.run(env, what, obj)
+            want = ops.run(env, what, fresh)
+        a, b = env.resolve(np.asarray(got.values, dtype=object).ravel()[0]), env.resolve(np.asarray(want.values, dtype=object).ravel()[0])
+        if isnan(a) or isnan(b):
+            env.claim(isnan(a) and isnan(b), "%s after history %s is missing exactly when it is on a fresh object" % (what, hist))
+        else:
+            env.close(a, b, "%s after history %s == %s on a fresh object with the same contents" % (what, hist, what), rel=1e-12, abs_=0.0, ctol=1e-9, catol=1e-12)
+
+
+SEL_TAGS = [1.0, 10.0, 100.0]
+
+
+@harness(P, quick=[dict(edit=e, method=m) for e in ("lon", "lat", "both") for m in ("nearest", "bbox")][:4] + [dict(edit="lon", method="idw")], thorough=grid(edit=["lon", "lat", "both"], method=["nearest", "bbox", "idw"]),
+         max_paths=600, obl_timeout=8000, witnesses=2, time_budget=240, hard_timeout=600)
+def sel_history(env, edit, method):
+    """site selection on a Dataset whose station coordinates were replaced in place AFTER an earlier selection gives
+    what the same selection gives on a fresh Dataset with the final coordinates (two stations, fixed positions
+    before and symbolic positions after the edit)."""
+    from wavespectra.core import select as SEL
+    ns = 2
+    lon0, lat0 = [70.0, 100.0], [0.0, 10.0]      # fixed positions for the first selection; the edit is symbolic
+    lon1 = [env.real("lon1_%d" % k, lo=0.0, hi=170.0) for k in range(ns)] if edit in ("lon", "both") else lon0
+    lat1 = [env.real("lat1_%d" % k, lo=-60.0, hi=60.0) for k in range(ns)] if edit in ("lat", "both") else lat0
+    if env.sym:
+        lon0, lat0 = [S.CF(x) for x in lon0], [S.CF(x) for x in lat0]
+        lon1 = [x if isinstance(x, S.Sym) else S.CF(x) for x in lon1]
+        lat1 = [x if isinstance(x, S.Sym) else S.CF(x) for x in lat1]
+    dt = object if env.sym else float
+    efth = np.zeros((ns, 2, 2))
+    for k in range(ns):
+        efth[k] = SEL_TAGS[k]
+
+    def build(lons, lats):
+        return xr.Dataset({"efth": (("site", "freq", "dir"), efth.copy()), "lon": (("site",), np.array(lons, dtype=dt)), "lat": (("site",), np.array(lats, dtype=dt))},
+                          coords={"site": np.arange(ns), "freq": [0.1, 0.2], "dir": [0.0, 180.0]})
+
+    def select(ds):
+        with env.lazy_sqrt(), env.stubs(lambda: ST.float_identity(SEL)):
+            if method == "bbox":
+                return ds.spec.sel([40.0, 120.0], [-20.0, 30.0], method="bbox", tolerance=1.0)
+            return ds.spec.sel([80.0], [5.0], method=method, tolerance=500.0)
+
+    ds = build(lon0, lat0)
+    ds.spec
+    try:
+        select(ds)
+    except (ValueError, AssertionError):
+        pass
+    if edit in ("lon", "both"):
+        ds["lon"] = (("site",), np.array(lon1, dtype=dt))
+    if edit in ("lat", "both"):
+        ds["lat"] = (("site",), np.array(lat1, dtype=dt))
+    fresh = build(lon1, lat1)
+    res = []
+    for d_ in (ds, fresh):
+        try:
+            o = select(d_)
+            res.append(("ok", o))
+        except (ValueError, AssertionError) as e:
+            res.append((type(e).__name__, None))
+    env.claim(res[0][0] == res[1][0], "selection after an in-place edit of the station coordinates succeeds/fails as on a fresh dataset", {"laden": res[0][0], "fresh": res[1][0]})
+    if res[0][1] is None or res[1][1] is None:
+        return
+    a, b = res[0][1], res[1][1]
+    env.claim(a.efth.shape == b.efth.shape, "same number of stations selected after the edit as on a fresh dataset", {"laden": a.efth.shape, "fresh": b.efth.shape})
+    if a.efth.shape != b.efth.shape:
+        return
+    env.close(_res(env, a.efth.values), _res(env, b.efth.values), "selected spectra after an in-place edit of the station coordinates == selection on a fresh dataset", rel=1e-9, abs_=0.0, ctol=1e-9, catol=1e-12)
+    for c in ("lon", "lat"):
+        env.close(_res(env, a[c].values), _res(env, b[c].values), "reported %s after an in-place edit == on a fresh dataset" % c, rel=0.0, abs_=1e-9, ctol=0.0, catol=1e-9)
 
 
 def _res(env, a):
